@@ -9,7 +9,8 @@ from harness import core, gen
 
 RULE = ("paired executions of the same final get_estimates call (and national summary) compared bit for bit: twice in one process on one client; on a "
         "fresh client; after 1-3 earlier calls with different arguments and a different estimator (history); with the global numpy / python generators "
-        "re-seeded differently before every call; the national summary after three earlier summaries on the same client; in subprocesses under PYTHONHASHSEED in {0, 1, 4242}; all three estimators, with features and fixed "
+        "re-seeded differently before every call; twice with the very same baseline DataFrame object; with the baseline read from the local file that an "
+        "earlier call with save_output=['data'] wrote; the national summary after three earlier summaries on the same client; in subprocesses under PYTHONHASHSEED in {0, 1, 4242}; all three estimators, with features and fixed "
         "effects. distinct = (estimator, kind of pairing); non-trivial = both executions completed")
 
 HASHSEEDS = ["0", "1", "4242"]
@@ -65,6 +66,9 @@ def worker(job):
         "global-rng-perturbed": {"cases": [final], "nat_sum": nat, "perturb_global_rng": True, "rng_salt": 7},
         "global-rng-perturbed-2": {"cases": [final, final], "nat_sum": nat, "perturb_global_rng": True, "rng_salt": 99},
     }
+    scenarios["twice-one-baseline-frame"] = {"cases": [final, final], "nat_sum": nat, "shared_client": False, "shared_base_frame": True}
+    if not final["params"].get("save_output"):
+        scenarios["baseline-read-from-local-cache"] = {"cases": [final], "nat_sum": nat, "local_cache": True}
     if nat:
         scenarios["summary-after-summaries"] = {"cases": [final], "nat_sum": True, "nat_sum_history": True}
     alt = None
@@ -88,7 +92,8 @@ def worker(job):
     res["ref"] = ref
     out = {"job": list(job), "office": final["office"], "pairs": [], "ref_ok": ref.get("ok"), "ref_exc": ref.get("exc")}
     runs = [("hashseed-1", scenarios["plain"], "1"), ("hashseed-4242", scenarios["plain"], "4242")]
-    for name in ("twice-same-client", "fresh-client-after-history", "same-client-after-history", "global-rng-perturbed", "global-rng-perturbed-2", "summary-after-summaries"):
+    for name in ("twice-same-client", "fresh-client-after-history", "same-client-after-history", "global-rng-perturbed", "global-rng-perturbed-2", "twice-one-baseline-frame",
+                 "baseline-read-from-local-cache", "summary-after-summaries"):
         if name not in scenarios:
             continue
         runs.append((name, scenarios[name], HASHSEEDS[(seed + len(name)) % 3]))
@@ -118,6 +123,28 @@ def worker(job):
     return out
 
 
+def baselines_job(seed):
+    """Estimandizer.add_estimand_baselines applied once and twice to the same one-unit frame, margin requested"""
+    from harness import run_impl
+    run_impl._imp()
+    import pandas as pd
+
+    from elexmodel.handlers.data.Estimandizer import Estimandizer
+
+    rng = random.Random(seed)
+    rows = []
+    for _ in range(8):
+        dem, gop = rng.randint(0, 5000), rng.randint(0, 5000)
+        turnout = dem + gop + rng.choice([0, 0, 1, 17, rng.randint(0, 900)])
+        df = pd.DataFrame({"geographic_unit_fips": ["u"], "baseline_dem": [dem], "baseline_gop": [gop], "baseline_turnout": [turnout]})
+        df = Estimandizer().add_estimand_baselines(df, {"margin": "margin"}, False)
+        w1 = float(df["baseline_weights"].iloc[0])
+        df = Estimandizer().add_estimand_baselines(df, {"margin": "margin"}, False)
+        w2 = float(df["baseline_weights"].iloc[0])
+        rows.append((dem, gop, turnout, w1, w2))
+    return rows
+
+
 def run(chk):
     ok, rep = chk.proofs()
     chk.assumptions += ["thread-level nondeterminism of BLAS / HiGHS is outside the model (single-threaded BLAS is configured for the runs; it would show up as a difference)",
@@ -136,6 +163,14 @@ def run(chk):
             if pr["diff"]:
                 chk.violation(f"{pi} estimates are not reproducible ({pr['name']}, PYTHONHASHSEED={pr['hashseed']}): {pr['diff']}", {"kind": "c12", "job": o["job"], "pairing": pr["name"]},
                               {"kind": "nondeterministic", "estimator": pi, "pairing": pr["name"]})
+    # the in-place baseline pass (F23): model and implementation on the same one-unit frames, one and two passes
+    brow = [r for rows in core.pmap(baselines_job, [rng.randint(0, 2**31) for _ in range(3)]) for r in rows]
+    bexpr = ["forallb (fun b : bool => b) " + core.llit([f"check_add_baselines {core.qlit(d)} {core.qlit(g)} {core.qlit(t)} {core.qlit(w1)} {core.qlit(w2)}" for d, g, t, w1, w2 in brow])]
+    bres, berrs = core.coq_eval("C12", "From Coq Require Import ZArith QArith List.\nImport ListNotations.\nFrom Elex Require Import Model.Estimandizer.\n", bexpr, shard=1, tag="baselines")
+    chk.evaluations += len(brow)
+    if not bres or bres[0] != "true":
+        chk.violation(f"baseline weights after one / two passes of add_estimand_baselines differ from add_baselines_margin of the model ({bres[:1]})",
+                      {"kind": "baselines", "rows": brow[:4], "correspondence": "coq/Model/Estimandizer.v check_add_baselines", "errors": berrs[:1]}, {"kind": "model-diff"}, no_input=True)
     if n_pairs < 10:
         chk.violation(f"only {n_pairs} execution pairs completed", {"kind": "coverage", "excs": [o.get('ref_exc') for o in outs][:4]}, {"kind": "coverage"}, no_input=True)
     if not ok and not [v for v in chk.violations if not v["no_input"]]:
